@@ -177,13 +177,16 @@ def run2(prog, key, a, b, overrides=None, structured=False, witness=False, retry
         return "inconclusive", e, it
 
 
-def run_hash(prog, a):
+def run_hash(prog, a, structured=False):
     it = Interp(prog, Policy())
-    va = mk_version(prog, "a", a[0], a[1], a[2])
+    va = (mk_version_structured if structured else mk_version)(prog, "a", a[0], a[1], a[2])
     hasher = Ptr(Cell(Tok("O", "hasher")))
     try:
         it.call_body("<Version as std::hash::Hash>::hash", [Ptr(Cell(va)), hasher])
     except Inconclusive as e:
+        if not structured:
+            # a hash that walks the identifier lists (e.g. through Display): the same world with real lists
+            return run_hash(prog, a, structured=True)
         return "inconclusive", e, it
     fed = [e[1] for e in it.events if e[0] == "hash"]
     return "ok", fed, it
